@@ -25,7 +25,7 @@ ASSUMPTIONS = [
     "(k + 10 oversamples >= min(n,p)) or the spectrum has a gap after mode k (then rtol 1e-6)",
     "scipy svds refuses k = min(shape) for complex data with solver='randomized' (counted as refusal)",
 ]
-TIERS = {"quick": (4, 90), "thorough": (16, 1300)}
+TIERS = {"quick": (4, 250), "thorough": (16, 1300)}
 
 CLASSES = ["EOF", "ComplexEOF", "HilbertEOF", "ExtendedEOF"]
 
